@@ -102,9 +102,9 @@ func c04Gen(r *Rand, tier string) interface{} {
 		}
 	}
 	in.DstPre = map[string]string{}
-	for p, c := range in.Tree.Files {
+	for _, p := range sortedNamesS(in.Tree.Files) { // sorted: the draws must not depend on map order
 		if r.Chance(1, 3) {
-			in.DstPre[p] = "PRE-EXISTING-LONGER-" + c + "-TAIL"
+			in.DstPre[p] = "PRE-EXISTING-LONGER-" + in.Tree.Files[p] + "-TAIL"
 		}
 	}
 	in.Helper = []string{"Copy", "Copy", "Copier", "StreamCopy"}[r.Intn(4)]
